@@ -1,7 +1,7 @@
 # -*- coding: utf-8 -*-
 """C05 Kekule and aromatic forms describe the same molecule -- protocol, output alphabet, rule-table clauses."""
 from ..r_protocol import run_protocol
-from ..r_rings import rule_output_alphabet, rule_tautomer_donor_guard
+from ..r_rings import rule_output_alphabet, rule_tautomer_donor_guard, rule_exocyclic_double
 from ..r_rules import rule_tables_applicable
 
 from ..r_domains import rule_domains
@@ -23,3 +23,4 @@ def run(ck, repo):
     rule_yield_then_mutate(ck, repo, 'C05.D4-yielded-forms-immutable', in_kekule, floor=3)
     rule_borrowed_pool(ck, repo, 'C05.D4-pooled-forms-copied', in_kekule, floor=1)
     _rule_hygiene(ck, repo, 'C05.H-dataflow-hygiene', 'C05')
+    rule_exocyclic_double(ck, repo, 'C05.D2-exocyclic-double-bond')
